@@ -419,78 +419,289 @@ theorem addOrUpdateModifyDate_restamp (d1 d2 : Str) (k j : Nat) (sym : Str) (pri
   rw [this, joinSp_padBody]
 
 
-/-! ### (6) `addNote` -/
+/-! ### (6') `addNote` -/
 
-theorem insertionIndex_go_spec (i : Nat) (b : Bool) (start : Nat) (ls : List Str) :
-    insertionIndex.go i b start ls = start ∨
-      (i ≤ insertionIndex.go i b start ls ∧ insertionIndex.go i b start ls < i + ls.length) := by
-  induction ls generalizing i b start with
+theorem insertionIndex_go_spec (i : Nat) (b f : Bool) (start : Nat) (ls : List Str) :
+    (insertionIndex.go i b f start ls).1 = start ∨
+      (i ≤ (insertionIndex.go i b f start ls).1 ∧
+        (insertionIndex.go i b f start ls).1 < i + ls.length) := by
+  induction ls generalizing i b f start with
   | nil => left; rfl
   | cons l rest ih =>
     unfold insertionIndex.go
     simp only []
     split
-    · rcases ih (i + 1) false i with h | h
+    · rcases ih (i + 1) false (f || startsWithItem l) i with h | h
       · right; rw [h]; simp
       · right; simp only [List.length_cons]; omega
-    · rcases ih (i + 1) (b || startsWithItem l) start with h | h
+    · rcases ih (i + 1) (b || startsWithItem l) (f || startsWithItem l) start with h | h
       · left; exact h
       · right; simp only [List.length_cons]; omega
 
 theorem insertionIndex_lt (lines : List Str) (h : lines ≠ []) :
-    insertionIndex lines < lines.length := by
+    (insertionIndex lines).1 < lines.length := by
   have hl : 0 < lines.length := List.length_pos_iff.mpr h
   unfold insertionIndex
-  rcases insertionIndex_go_spec 0 false (lines.length - 1) lines with h | h
+  rcases insertionIndex_go_spec 0 false false (lines.length - 1) lines with h | h
   · rw [h]; omega
   · omega
 
-theorem insertionIndex_le (lines : List Str) : insertionIndex lines ≤ lines.length := by
+theorem insertionIndex_le (lines : List Str) : (insertionIndex lines).1 ≤ lines.length := by
   cases lines with
   | nil => simp [insertionIndex, insertionIndex.go]
   | cons l ls => exact Nat.le_of_lt (insertionIndex_lt _ (by simp))
 
-theorem addNote_eq (lines noteLines : List Str) :
-    addNote lines noteLines =
-      lines.take (insertionIndex lines) ++ noteLines ++ lines.drop (insertionIndex lines + 1) := rfl
+/-- case 1 of `add_note`: the target line is not blank (no trailing newline) -/
+def targetNotBlank (lines : List Str) : Bool :=
+  !isBlankLine (lines.getD (insertionIndex lines).1 [])
 
-theorem addNote_before (lines n : List Str) (i : Nat) (hi : i < insertionIndex lines) :
-    (addNote lines n)[i]? = lines[i]? := by
-  have hk := insertionIndex_le lines
-  rw [addNote_eq, List.append_assoc, List.getElem?_append_left (by simp; omega)]
-  rw [List.getElem?_take_of_lt hi]
+/-- case 2 of `add_note`: no item line was seen and the line before the (blank) target is not blank -/
+def headerOnly (lines : List Str) : Bool :=
+  !(insertionIndex lines).2.1 && decide ((insertionIndex lines).1 > 0) &&
+    !isBlankLine (lines.getD ((insertionIndex lines).1 - 1) [])
 
-theorem addNote_after (lines n : List Str) (i : Nat) (hi : insertionIndex lines < i) :
-    (addNote lines n)[i + n.length - 1]? = lines[i]? := by
-  have hk := insertionIndex_le lines
-  rw [addNote_eq, List.getElem?_append_right (by simp; omega)]
-  simp only [List.length_append, List.length_take, List.getElem?_drop]
-  congr 1
+theorem addNote_eq (lines n : List Str) :
+    addNote lines n =
+      if targetNotBlank lines then
+        lines.take ((insertionIndex lines).1 + 1) ++
+          (if (insertionIndex lines).2.2 then [] else [[]]) ++ n
+      else if headerOnly lines then lines.take ((insertionIndex lines).1 + 1) ++ n
+      else lines.take (insertionIndex lines).1 ++ n ++ lines.drop ((insertionIndex lines).1 + 1) := by
+  unfold addNote targetNotBlank headerOnly
+  rcases insertionIndex lines with ⟨k, found, inNote⟩
+  rfl
+
+
+theorem getElem?_take_append {α : Type} (l r : List α) (m i : Nat) (hi : i < m)
+    (hil : i < l.length) : (l.take m ++ r)[i]? = l[i]? := by
+  rw [List.getElem?_append_left (by simp; omega), List.getElem?_take_of_lt hi]
+
+theorem isBlankLine_nil : isBlankLine [] = true := rfl
+
+theorem lt_of_targetNotBlank (lines : List Str) (h : targetNotBlank lines = true) :
+    (insertionIndex lines).1 < lines.length := by
+  cases Nat.lt_or_ge (insertionIndex lines).1 lines.length with
+  | inl h' => exact h'
+  | inr h' =>
+    unfold targetNotBlank at h
+    rw [List.getD_eq_getElem?_getD, List.getElem?_eq_none h'] at h
+    simp [isBlankLine_nil] at h
+
+theorem lt_of_headerOnly (lines : List Str) (h : headerOnly lines = true) :
+    (insertionIndex lines).1 < lines.length := by
+  simp only [headerOnly, Bool.and_eq_true, decide_eq_true_eq] at h
+  apply insertionIndex_lt
+  intro e
+  subst e
+  have := insertionIndex_le []
+  simp only [List.length_nil] at this
   omega
 
-theorem addNote_length (lines n : List Str) (h : lines ≠ []) :
-    (addNote lines n).length + 1 = lines.length + n.length := by
-  have hk := insertionIndex_lt lines h
-  simp only [addNote_eq, List.length_append, List.length_take, List.length_drop]
-  omega
+/-- the facts shared by the two append cases -/
+theorem addNote_append_facts (lines sep n : List Str)
+    (hlt : (insertionIndex lines).1 < lines.length)
+    (he : addNote lines n = lines.take ((insertionIndex lines).1 + 1) ++ sep ++ n) :
+    lines.take ((insertionIndex lines).1 + 1) <+: addNote lines n ∧
+      (∀ i, i ≤ (insertionIndex lines).1 → (addNote lines n)[i]? = lines[i]?) := by
+  refine ⟨by rw [he, List.append_assoc]; exact List.prefix_append _ _, ?_⟩
+  intro i hi
+  rw [he, List.append_assoc, getElem?_take_append _ _ _ _ (by omega) (by omega)]
 
-/-! ### (7) `deleteNote` -/
+/-- case 1: the target line is not blank → the note is appended after it, separated by an empty line
+unless the page ends inside a note -/
+theorem addNote_targetNotBlank (lines n : List Str) (h : targetNotBlank lines = true) :
+    (insertionIndex lines).1 < lines.length ∧
+    addNote lines n = lines.take ((insertionIndex lines).1 + 1) ++
+      (if (insertionIndex lines).2.2 then [] else [[]]) ++ n ∧
+    lines.take ((insertionIndex lines).1 + 1) <+: addNote lines n ∧
+    (∀ i, i ≤ (insertionIndex lines).1 → (addNote lines n)[i]? = lines[i]?) := by
+  have he : addNote lines n = lines.take ((insertionIndex lines).1 + 1) ++
+      (if (insertionIndex lines).2.2 then [] else [[]]) ++ n := by
+    rw [addNote_eq, if_pos h]
+  have hlt := lt_of_targetNotBlank lines h
+  exact ⟨hlt, he, addNote_append_facts lines _ n hlt he⟩
+
+/-- case 2: header-only page → the blank target line is kept and the note appended after it -/
+theorem addNote_headerOnly (lines n : List Str) (h1 : targetNotBlank lines = false)
+    (h2 : headerOnly lines = true) :
+    (insertionIndex lines).1 < lines.length ∧
+    addNote lines n = lines.take ((insertionIndex lines).1 + 1) ++ n ∧
+    lines.take ((insertionIndex lines).1 + 1) <+: addNote lines n ∧
+    (∀ i, i ≤ (insertionIndex lines).1 → (addNote lines n)[i]? = lines[i]?) := by
+  have he : addNote lines n = lines.take ((insertionIndex lines).1 + 1) ++ n := by
+    rw [addNote_eq, h1, if_neg (by simp), if_pos h2]
+  have hlt := lt_of_headerOnly lines h2
+  exact ⟨hlt, he, addNote_append_facts lines [] n hlt (by simpa using he)⟩
+
+/-- case 3: the blank target line is replaced by the note; every other line is kept -/
+theorem addNote_replace (lines n : List Str) (h1 : targetNotBlank lines = false)
+    (h2 : headerOnly lines = false) :
+    isBlankLine (lines.getD (insertionIndex lines).1 []) = true ∧
+    addNote lines n = lines.take (insertionIndex lines).1 ++ n ++
+      lines.drop ((insertionIndex lines).1 + 1) ∧
+    lines.take (insertionIndex lines).1 <+: addNote lines n ∧
+    (∀ i, i < (insertionIndex lines).1 → (addNote lines n)[i]? = lines[i]?) ∧
+    (∀ i, (insertionIndex lines).1 < i → (addNote lines n)[i + n.length - 1]? = lines[i]?) := by
+  have he : addNote lines n = lines.take (insertionIndex lines).1 ++ n ++
+      lines.drop ((insertionIndex lines).1 + 1) := by
+    rw [addNote_eq, h1, h2, if_neg (by simp), if_neg (by simp)]
+  have hk := insertionIndex_le lines
+  refine ⟨by simpa [targetNotBlank] using h1, he, ?_, ?_, ?_⟩
+  · rw [he, List.append_assoc]; exact List.prefix_append _ _
+  · intro i hi
+    rw [he, List.append_assoc, getElem?_take_append _ _ _ _ hi (by omega)]
+  · intro i hi
+    rw [he, List.getElem?_append_right (by simp; omega)]
+    simp only [List.length_append, List.length_take, List.getElem?_drop]
+    congr 1
+    omega
+
+/-- (6') in one statement: nothing before the target line is ever lost or changed, and one of the
+three cases applies -/
+theorem addNote_spec (lines n : List Str) :
+    (lines ≠ [] → (insertionIndex lines).1 < lines.length) ∧
+    lines.take (insertionIndex lines).1 <+: addNote lines n ∧
+    (∀ i, i < (insertionIndex lines).1 → (addNote lines n)[i]? = lines[i]?) ∧
+    ((targetNotBlank lines = true ∧
+        addNote lines n = lines.take ((insertionIndex lines).1 + 1) ++
+          (if (insertionIndex lines).2.2 then [] else [[]]) ++ n ∧
+        lines.take ((insertionIndex lines).1 + 1) <+: addNote lines n ∧
+        (addNote lines n)[(insertionIndex lines).1]? = lines[(insertionIndex lines).1]?) ∨
+     (targetNotBlank lines = false ∧ headerOnly lines = true ∧
+        addNote lines n = lines.take ((insertionIndex lines).1 + 1) ++ n ∧
+        lines.take ((insertionIndex lines).1 + 1) <+: addNote lines n ∧
+        (addNote lines n)[(insertionIndex lines).1]? = lines[(insertionIndex lines).1]?) ∨
+     (targetNotBlank lines = false ∧ headerOnly lines = false ∧
+        isBlankLine (lines.getD (insertionIndex lines).1 []) = true ∧
+        addNote lines n = lines.take (insertionIndex lines).1 ++ n ++
+          lines.drop ((insertionIndex lines).1 + 1) ∧
+        (∀ i, (insertionIndex lines).1 < i → (addNote lines n)[i + n.length - 1]? = lines[i]?))) := by
+  refine ⟨insertionIndex_lt lines, ?_⟩
+  cases h1 : targetNotBlank lines with
+  | true =>
+    obtain ⟨_, he, hp, hi⟩ := addNote_targetNotBlank lines n h1
+    refine ⟨?_, fun i h => hi i (Nat.le_of_lt h), Or.inl ⟨rfl, he, hp, hi _ (Nat.le_refl _)⟩⟩
+    exact List.IsPrefix.trans (List.take_prefix_take_left (Nat.le_succ _)) hp
+  | false =>
+    cases h2 : headerOnly lines with
+    | true =>
+      obtain ⟨_, he, hp, hi⟩ := addNote_headerOnly lines n h1 h2
+      refine ⟨?_, fun i h => hi i (Nat.le_of_lt h),
+        Or.inr (Or.inl ⟨rfl, rfl, he, hp, hi _ (Nat.le_refl _)⟩)⟩
+      exact List.IsPrefix.trans (List.take_prefix_take_left (Nat.le_succ _)) hp
+    | false =>
+      obtain ⟨hb, he, hp, hi, ha⟩ := addNote_replace lines n h1 h2
+      exact ⟨hp, hi, Or.inr (Or.inr ⟨rfl, rfl, hb, he, ha⟩)⟩
+
+/-! #### in the two append cases the target line is the last line of the page -/
+
+/-- the index returned by the scan is the initial `start`, or the index of a blank line -/
+theorem insertionIndex_go_blank (i : Nat) (b f : Bool) (start : Nat) (ls : List Str) :
+    (insertionIndex.go i b f start ls).1 = start ∨
+      ∃ m, m < ls.length ∧ (insertionIndex.go i b f start ls).1 = i + m ∧
+        isBlankLine (ls.getD m []) = true := by
+  induction ls generalizing i b f start with
+  | nil => left; rfl
+  | cons l rest ih =>
+    unfold insertionIndex.go
+    simp only []
+    split
+    · next hc =>
+      simp only [Bool.and_eq_true] at hc
+      rcases ih (i + 1) false (f || startsWithItem l) i with h | ⟨m, hm, he, hb⟩
+      · right; exact ⟨0, by simp, by rw [h]; rfl, by simpa using hc.2⟩
+      · right; exact ⟨m + 1, by simpa using hm, by rw [he]; omega, by simpa using hb⟩
+    · rcases ih (i + 1) (b || startsWithItem l) (f || startsWithItem l) start with h | ⟨m, hm, he, hb⟩
+      · left; exact h
+      · right; exact ⟨m + 1, by simpa using hm, by rw [he]; omega, by simpa using hb⟩
+
+/-- `found` is monotone, and while no item line is seen the scan never moves `start` -/
+theorem insertionIndex_go_notFound (i : Nat) (b f : Bool) (start : Nat) (ls : List Str)
+    (h : (insertionIndex.go i b f start ls).2.1 = false) :
+    f = false ∧ (b = false → (insertionIndex.go i b f start ls).1 = start) := by
+  induction ls generalizing i b f start with
+  | nil => exact ⟨h, fun _ => rfl⟩
+  | cons l rest ih =>
+    unfold insertionIndex.go at h ⊢
+    simp only [] at h ⊢
+    split
+    · next hc =>
+      rw [if_pos hc] at h
+      have h1 := (ih _ _ _ _ h).1
+      simp only [Bool.or_eq_false_iff] at h1
+      refine ⟨h1.1, fun hb => ?_⟩
+      rw [hb, h1.2] at hc
+      simp at hc
+    · next hc =>
+      rw [if_neg hc] at h
+      have h1 := ih _ _ _ _ h
+      simp only [Bool.or_eq_false_iff] at h1
+      exact ⟨h1.1.1, fun hb => h1.2 (by simp [hb, h1.1.2])⟩
+
+theorem targetNotBlank_last (lines : List Str) (h : targetNotBlank lines = true) :
+    (insertionIndex lines).1 + 1 ≥ lines.length := by
+  unfold targetNotBlank at h
+  unfold insertionIndex at h ⊢
+  rcases insertionIndex_go_blank 0 false false (lines.length - 1) lines with e | ⟨m, _, he, hb⟩
+  · rw [e]; omega
+  · rw [he, Nat.zero_add, hb] at h
+    simp at h
+
+theorem headerOnly_last (lines : List Str) (h2 : headerOnly lines = true) :
+    (insertionIndex lines).1 + 1 ≥ lines.length := by
+  simp only [headerOnly, Bool.and_eq_true, Bool.not_eq_true', decide_eq_true_eq] at h2
+  have := (insertionIndex_go_notFound 0 false false (lines.length - 1) lines h2.1.1).2 rfl
+  unfold insertionIndex
+  rw [this]; omega
+
+/-- case 1, whole page kept: the note goes after the last line (and a separating empty line) -/
+theorem addNote_append_targetNotBlank (lines n : List Str) (h : targetNotBlank lines = true) :
+    addNote lines n = lines ++ (if (insertionIndex lines).2.2 then [] else [[]]) ++ n := by
+  rw [(addNote_targetNotBlank lines n h).2.1, List.take_of_length_le (targetNotBlank_last lines h)]
+
+/-- case 2, whole page kept -/
+theorem addNote_append_headerOnly (lines n : List Str) (h1 : targetNotBlank lines = false)
+    (h2 : headerOnly lines = true) : addNote lines n = lines ++ n := by
+  rw [(addNote_headerOnly lines n h1 h2).2.1, List.take_of_length_le (headerOnly_last lines h2)]
+
+theorem addNote_length_append (lines n : List Str) :
+    (targetNotBlank lines = true →
+      addNote lines n = lines ++ (if (insertionIndex lines).2.2 then [] else [[]]) ++ n ∧
+      (addNote lines n).length =
+        lines.length + (if (insertionIndex lines).2.2 then 0 else 1) + n.length) ∧
+    (targetNotBlank lines = false → headerOnly lines = true →
+      addNote lines n = lines ++ n ∧ (addNote lines n).length = lines.length + n.length) := by
+  refine ⟨fun h => ?_, fun h1 h2 => ?_⟩
+  · rw [addNote_append_targetNotBlank lines n h]
+    refine ⟨rfl, ?_⟩
+    cases (insertionIndex lines).2.2 <;> simp <;> omega
+  · rw [addNote_append_headerOnly lines n h1 h2]
+    exact ⟨rfl, by simp⟩
+
+/-! ### (7') `deleteNote` -/
 
 theorem deleteNote_spec (lines : List Str) (zid : Str) (n : Nat) (r : List Str)
     (h : deleteNote lines zid n = some r) :
-    ∃ i, lines.findIdx? (fun l => hasInfixStr ([' '] ++ zid ++ [' ']) l) = some i ∧
+    ∃ i, lines.findIdx? (isFirstLineOf zid) = some i ∧
       r = lines.take i ++ lines.drop (i + n) ∧
+      isFirstLineOf zid (lines.getD i []) = true ∧
+      (∀ j, j < i → isFirstLineOf zid (lines.getD j []) = false) ∧
       r.length + min n (lines.length - i) = lines.length := by
   unfold deleteNote at h
   split at h
   · exact absurd h (by simp)
   · next i hi =>
     injection h with h
-    refine ⟨i, hi, h.symm, ?_⟩
-    have hlt : i < lines.length := (List.findIdx?_eq_some_iff_getElem.mp hi).1
-    subst h
-    simp only [List.length_append, List.length_take, List.length_drop]
-    omega
+    obtain ⟨hlt, hi1, hi2⟩ := List.findIdx?_eq_some_iff_getElem.mp hi
+    refine ⟨i, hi, h.symm, ?_, ?_, ?_⟩
+    · rw [List.getD_eq_getElem?_getD, List.getElem?_eq_getElem hlt]; exact hi1
+    · intro j hj
+      have hjl : j < lines.length := by omega
+      rw [List.getD_eq_getElem?_getD, List.getElem?_eq_getElem hjl]
+      simpa using hi2 j hj
+    · subst h
+      simp only [List.length_append, List.length_take, List.length_drop]
+      omega
 
 
 /-! ### sanity checks -/
@@ -544,10 +755,45 @@ theorem deleteNote_spec (lines : List Str) (zid : Str) (n : Nat) (r : List Str)
 #print axioms joinSp_splitOn
 #print axioms splitOn_joinSp
 #print axioms addOrUpdateModifyDate_restamp
+
+-- the three cases of `addNote` (lines shown joined with "|")
+/-- info: ((2, true, true), true, false, ["- a", "o b", "- n", ""]) -/
+#guard_msgs in
+#eval let ls := ["h", "- a", "o b"].map String.toList
+  (insertionIndex ls, targetNotBlank ls, headerOnly ls,
+    (addNote ls (["- n", ""].map String.toList)).drop 1 |>.map String.ofList)
+
+-- case 1 on a page that does not end inside a note: an empty line separates (case 1 has precedence
+-- over `headerOnly`, which also evaluates to true here)
+/-- info: ((1, false, false), true, true, ["h", "text", "", "- n", ""]) -/
+#guard_msgs in
+#eval let ls := ["h", "text"].map String.toList
+  (insertionIndex ls, targetNotBlank ls, headerOnly ls,
+    (addNote ls (["- n", ""].map String.toList)).map String.ofList)
+
+/-- info: ((1, false, false), false, true, ["h", "", "- n", ""]) -/
+#guard_msgs in
+#eval let ls := ["h", ""].map String.toList
+  (insertionIndex ls, targetNotBlank ls, headerOnly ls,
+    (addNote ls (["- n", ""].map String.toList)).map String.ofList)
+
+/-- info: ((2, true, false), false, false, ["h", "- a", "- n", "", "tail"]) -/
+#guard_msgs in
+#eval let ls := ["h", "- a", "", "tail"].map String.toList
+  (insertionIndex ls, targetNotBlank ls, headerOnly ls,
+    (addNote ls (["- n", ""].map String.toList)).map String.ofList)
+
 #print axioms insertionIndex_lt
 #print axioms addNote_eq
-#print axioms addNote_before
-#print axioms addNote_after
+#print axioms addNote_targetNotBlank
+#print axioms addNote_headerOnly
+#print axioms addNote_replace
+#print axioms addNote_spec
+#print axioms targetNotBlank_last
+#print axioms headerOnly_last
+#print axioms addNote_append_targetNotBlank
+#print axioms addNote_append_headerOnly
+#print axioms addNote_length_append
 #print axioms deleteNote_spec
 
 end ZorgVerif.NoteText
